@@ -17,6 +17,7 @@ type SeqProfile struct {
 	Trigs     [][2]string
 	Capacity  int
 	Transport string // "chan" | "log"
+	Keyed     bool   // the collection has a primary key column: rows are created by InsertKey / UpsertKey
 	Collide   bool   // use both enum strings of the 32-bit hash collision pair
 	Replica   bool   // keep a replica R fed from the stream and dump it too
 	Prologue  string // "", "block1", "sparse", "three"
@@ -210,6 +211,42 @@ func (g *seqGen) prologue() {
 	}
 }
 
+func (g *seqGen) keyStep(x *Tx, r float64) {
+	p := g.p
+	key := g.P.Keys[g.rnd.Intn(len(g.P.Keys))]
+	nonKey := func() []ColDesc {
+		var out []ColDesc
+		for _, d := range g.P.Cols {
+			if d.Kind != "key" {
+				out = append(out, d)
+			}
+		}
+		return out
+	}()
+	switch {
+	case r < p.PInsert/2:
+		x.InsertKey(key, g.writes(nonKey, g.rnd.Intn(3), 0, false), g.rnd.Float64() < p.PFailIns)
+	case r < p.PInsert:
+		x.UpsertKey(key, g.writes(nonKey, g.rnd.Intn(3), 0, false))
+	case r < p.PInsert+p.PDelete/2:
+		x.DeleteKey(key)
+	case r < p.PInsert+p.PDelete:
+		if o, ok := g.pick(); ok {
+			x.Delete(o)
+		}
+	case r < p.PInsert+p.PDelete+0.15:
+		x.QueryKey(key, g.writes(nonKey, g.rnd.Intn(2), 0, false), g.rnd.Intn(3))
+	case r < p.PInsert+p.PDelete+0.3:
+		if o, ok := g.pick(); ok {
+			x.SetKey(o, key)
+		}
+	default:
+		if o, ok := g.pick(); ok {
+			x.At(o, g.writes(nonKey, 1+g.rnd.Intn(2), o, true), g.rnd.Intn(3) == 0, g.rnd.Intn(3))
+		}
+	}
+}
+
 // RunSeq runs one random sequential history and returns its events.
 func RunSeq(seed int64, p SeqProfile) []Ev {
 	g := &seqGen{p: p, rnd: rand.New(rand.NewSource(seed)), w: NewWorld(), affine: map[string]int{}}
@@ -218,6 +255,12 @@ func RunSeq(seed int64, p SeqProfile) []Ev {
 	g.P = w.NewColl("P", p.Capacity, p.Transport, 0)
 	if p.Replica {
 		g.R = w.NewColl("R", p.Capacity, p.Transport, 0)
+	}
+	if p.Keyed {
+		g.P.Keys = []string{"k1", "k2", "k3", "k4"}
+		if g.R != nil {
+			g.R.Keys = g.P.Keys
+		}
 	}
 	InstallSeqHook(w)
 	defer UninstallHook()
@@ -254,6 +297,10 @@ func RunSeq(seed int64, p SeqProfile) []Ev {
 					g.P.Dump(g.rnd.Intn(3))
 				}
 				r := g.rnd.Float64()
+				if p.Keyed {
+					g.keyStep(x, r)
+					continue
+				}
 				switch {
 				case r < p.PInsert:
 					fail := g.rnd.Float64() < p.PFailIns
